@@ -459,7 +459,7 @@ def _voxel_sizes_by_value(ctx, cf):
         return None
     var = lambda n_: Rat(Poly.var(n_))     # noqa: E731
     for periodic in (True, False):
-        ex = SymExec(cf, NL, call_model=model, symbolic_loops={"i", "j", "k"})
+        ex = SymExec(cf, NL, call_model=model, symbolic_loops={"*"})
         st = State()
         for p_ in ps:
             nm = p_.get("name")
